@@ -101,6 +101,7 @@ func runC16(p *core.Prog, r *core.Result) {
 		"R16.7 merging an adjacent delete/add pair into a replace: the two arguments of the element-wise diff are (part of) the deleted run and (part of) the added run in that order, and the surplus that is kept as an edit of its own carries the kind of the run it was cut from (left-over deleted elements stay a delete, left-over added elements stay an add)",
 		"R16.8 elements are reported as kept (common) only where they are equal as values: in the diagonal walk of the edit-graph search every advance of the two cursors is on the edge where starlark.EqualDepth/Equal of a.Index(x) and b.Index(y) reported equality (no representation-level shortcut such as comparing the bytes of a string with the bytes of a bytes value)",
 		"R16.9 the reason of one target is computed from that target's diff alone: nothing reachable from diffEnv writes into a package-level slice or map (an append to, a filter-in-place on, or an element store into the key table), so what one call reports cannot depend on the calls before it",
+		"R16.10 the reason shown is the one that names the differing parts whenever the target itself is out of date: any other value that reaches the reason argument of TargetEvaluating (\"always\", the out-of-date dependencies, the failed last run) is selected only where upToDate() said true",
 		"R16.5 the diff is nil exactly on the equal edge; every other successful return is a non-nil node",
 	}
 	r.NotDecided = []string{"that kept+deleted / kept+added elements reconstruct the two sequences (the O(NP) search and snake recording are behavioural)", "merging of delete+add into replace for all length combinations"}
@@ -180,6 +181,7 @@ func runC16(p *core.Prog, r *core.Result) {
 
 	// ---- R16.9
 	checkReasonsNotShared(p, r, "R16.9")
+	checkReasonOfOwnVerdictShown(p, r, "R16.10")
 
 	// ---- R16.7
 	checkComposeMerge(p, r)
